@@ -97,8 +97,11 @@ func main() {
 			os.Exit(2)
 		}
 		var opts []genql.QueryOption
+		vars := map[string]any{}
 		for _, a := range os.Args[4:] {
 			switch a {
+			case "vars":
+				opts = append(opts, genql.WithVars(vars))
 			case "wrapped":
 				opts = append(opts, genql.Wrapped())
 			case "pg":
@@ -108,7 +111,7 @@ func main() {
 			}
 		}
 		o := gq.Run(doc, os.Args[3], opts...)
-		fmt.Printf("status=%s err=%v panic=%q gpanic=%q\nrows=%s\ndoc-after=%s\n", o.Status(), o.Err, o.Panic, o.GPanic, gq.Render(o.Rows), gq.Render(doc))
+		fmt.Printf("status=%s err=%v panic=%q gpanic=%q\nrows=%s\ndoc-after=%s\nvars-after=%s\n", o.Status(), o.Err, o.Panic, o.GPanic, gq.Render(o.Rows), gq.Render(doc), gq.Render(vars))
 	case "sel":
 		var doc any
 		if err := json.Unmarshal([]byte(os.Args[2]), &doc); err != nil {
